@@ -12,7 +12,7 @@ from ..poly import Poly, parr, z3mod
 from ..tv import Compiled, viol_terms, affine_in_z, discharge_row
 from ..util import quiet
 from ..oracle import Z3Env, cons_eval
-from ..rogen import core_specs, expset_specs, random_spec, desc_from_spec
+from ..rogen import core_specs, expset_specs, random_spec, random_expset_spec, desc_from_spec
 from ..smt import HarnessError, fval
 from ..harness import finding
 
@@ -30,11 +30,13 @@ META = dict(
     bounds='models: <=3 here-and-now arrays (<=3 entries), <=2 random arrays (<=4 components), LDRs with arbitrary '
            'dependency masks (<=2 entries), <=4 robust rows, min/max/minmax/maxmin with affine, bi-affine, '
            'maxof/minof objectives; sets: boxes (zero/non-zero/one-sided), linear (in)equalities, 1/2/inf-norm '
-           '(shifted/scaled), quad, sumsqr, lifted budget sets, intersections, per-constraint forall sets; '
+           '(shifted/scaled), quad, sumsqr, lifted budget sets, KL-divergence balls / entropy level sets on the simplex and sum-exp / sum-log sets (dimension 2-3), intersections, per-constraint forall sets; '
            'coefficients on the dyadic grid (+ multiples of 1/8 in thorough)',
-    outside='KL/exp-cone pieces of uncertainty sets (dual exponential cone not decidable by z3/cvc5 within reach); '
-            'general p-norm sets; models beyond the structural bound; numeric solver behaviour beyond tol=1e-6',
+    outside='exactness for exponential-cone sets (only soundness is claimed, through the cone-pairing relaxation; a '
+            'satisfiable relaxation without a reproduced real point is undecided); general p-norm sets; models beyond the structural bound; numeric solver behaviour beyond tol=1e-6',
     assumptions=['Lemma V (vertex sufficiency for rows affine in z over a polytope)',
+                 'pairing inequality of the exponential cone <K_exp, K_exp*> >= 0 and Cauchy-Schwarz for second-order cones '
+                 '(hypothesis-side relaxation, DESIGN.md 3.10)',
                  'Lemma S (support function of an ellipsoid)',
                  'interface columns are identified through the real get() read-back with a sentinel solution',
                  'quad() sets: sqrtm rounding => interface boxed to [-8,8], violation margin 1e-6'],
@@ -45,6 +47,7 @@ def cases(tier, seed, rnd):
     specs = core_specs() + expset_specs()
     n = 24 if tier == 'quick' else 600
     specs += [random_spec(rnd, i) for i in range(n)]
+    specs += [random_expset_spec(rnd, i) for i in range(6 if tier == 'quick' else 120)]
     return [dict(spec=s) for s in specs]
 
 
@@ -176,6 +179,11 @@ def handle_cex(ses, spec, cm, row, model, vs):
     vstar = [float(fval(model, v)) for v in vs]
     data = dict(spec=spec, row=row['label'], v=vstar)
     ok, info = replay(data, verbose=False, want_info=True)
+    if not ok and cm.cp.xmat:
+        # programs with exponential cones: exp is uninterpreted in the encoding, a model need not be a real point
+        ses.stats.undecided += 1
+        ses.stats.notes.append('undecided: %s/%s (abstract counterexample without a real witness)' % (spec['name'], row['label']))
+        return
     if not ok:
         raise HarnessError('soundness counterexample does not reproduce on the real code: %s/%s (%s)'
                            % (spec['name'], row['label'], info))
@@ -346,7 +354,7 @@ def cross_validate(ses, spec, cm, rows, vs, P):
     blocks = cm.cp.blocks(cm.iface.values())
     for row in rows:
         U = row['uset']
-        if U is None or len(U.names) > 2 or row['cons'].is_atom() or spec.get('tol') or U.kind in ('mixed', 'other'):
+        if U is None or len(U.names) > 2 or row['cons'].is_atom() or spec.get('tol') or U.kind in ('mixed', 'other', 'exp'):
             continue
         cols = row_cols(row, cm)
         label = '%s/%s/direct' % (spec['name'], row['label'])
